@@ -267,6 +267,52 @@ CHECKS["C14"] = dict(
     engine="tlc+replay(fresh processes)",
 )
 
+CHECKS["C01"] = dict(
+    built=True,
+    category="exploration",
+    technique="TLA+ spec J2O_OpSem (exact operator semantics on a lattice, algebraic laws as invariants) checked by TLC; every enumerated case executed on real exports in ORT three ways (specification = JAX eager = ORT); registered corpus exported and compared with JAX eager on author and exact-lattice inputs",
+    text=(
+        "J2O_OpSem gives the exact meaning, on small integers / half-integers, of the primitives whose lowering is value dependent (round with both tie rules, floor/ceil/trunc, float->int conversion, "
+        "integer division and remainder signs, floor_divide/mod/fmod, clamp, sign, copysign with signed zero, one_hot with negative and out-of-range indices, argmax ties, cumulative sums, sort, integer_pow) "
+        "with algebraic laws as TLC invariants (2.5k states); every enumerated (primitive, parameters, input) runs through a real export in ORT and must equal both the specification and JAX eager. "
+        "The registered corpus (quick: 420 sampled testcases, thorough: all ~3.1k variants) is exported and executed on the author's inputs and, for shape-declared testcases, on further exact-lattice draws; "
+        "integers / booleans bit-exact, floats within the testcase's declared tolerance or 8x JAX's own float32 error against its x64 evaluation."
+    ),
+    note="TLA+ has no IEEE arithmetic: the spec predicts results on the exact lattice only; elsewhere JAX eager (the oracle the property names) is the reference. Testcases declared by input_values are run on the author's values only (they encode domain constraints); RNG-driven testcases (skip_numeric_validation) are excluded.",
+    design_ref="DESIGN.md §2 J2O_OpSem, §3 C01",
+    engine="tlc+replay+corpus-differential",
+)
+CHECKS["C10"] = dict(
+    built=False,
+    na_reason="check built (J2O_Transform + registry-wide transformed exports) but its findings on the unchanged tree are still being triaged; not claimed until every alarm is either repaired or listed",
+    category="exploration",
+    technique="TLA+ spec J2O_Transform (meaning of jit / remat / vmap(in_axes,out_axes) / jvp / grad / custom_jvp on exact polynomial templates, laws as invariants) checked by TLC; every case executed on a real export of the transformed template; vmap / jit / remat / grad / jvp applied to registered callables and compared with JAX's own evaluation of the transformed callable",
+    text=(
+        "J2O_Transform defines jit, nested jit and remat as identity, vmap as slice-apply-stack along in_axes/out_axes, jvp/grad through the templates' Jacobians and custom_jvp through the user's rule, on polynomial maps over "
+        "integer vectors (all values exact); TLC checks linearity of jvp, grad = transposed jvp and layout-freedom of vmap of elementwise maps over all cases, and every case is executed on a real export of the transformed "
+        "template (specification = JAX = ORT, exact). Registry-wide: each sampled registered callable f (quick 170, thorough all static ones) is wrapped in vmap, jit, (remat), grad, (jvp); whenever JAX evaluates T(f) on the "
+        "author's inputs, the export of T(f) must produce the same values in ORT; a produced model that does not run is a violation, an export that raises is counted."
+    ),
+    note="Exports of T(f) that raise are loud and only counted (C16 covers loudness); transformed callables JAX itself rejects are outside the domain. Numerics of inexact kernels use JAX as reference, not the spec.",
+    design_ref="DESIGN.md §2 J2O_Transform, §3 C10",
+    engine="tlc+replay+corpus-differential",
+)
+CHECKS["C19"] = dict(
+    built=True,
+    category="model_checking",
+    technique="TLA+ spec J2O_CallForms (Python's argument binding as a step machine run on the original's and the installed substitute's signature) checked by TLC on a complete miniature signature family and on the signatures extracted from the tree; every emitted verdict replayed against inspect.Signature.bind; every emitted call form executed as a one-call export vs the eager original",
+    text=(
+        "inspect.signature of every patched (target, attr) slot (283) is extracted for the original and for the callable the REAL plugin worlds install. J2O_CallForms binds a call form [positional count, keyword set] "
+        "step by step (positional, *args overflow, keywords in any order, **kwargs, defaults) on both signatures: TLC proves the machine confluent and equal to its closed form on every signature layout of up to 3 parameters "
+        "(65k states, all replayed against inspect.Signature.bind), then explores every form of every extracted original (all positional counts x keyword subsets with a bounded number of optional keywords, 115k states) and "
+        "checks that the substitute binds it and keeps parameter positions, except listed findings. The forms are then EXECUTED: base calls recorded from the project's own testcases supply in-domain operands; each form is "
+        "exported as a one-call program and must equal the eager result of the original in ORT or be rejected explicitly; one-parameter non-default variations that eager JAX accepts are executed the same way (an ignored argument shows as a different result)."
+    ),
+    note="Trusted: inspect.signature(follow_wrapped=False) as the substitute's calling convention, eager JAX as acceptor and reference, ORT. Substitutes that forward (*args, **kwargs) are judged by execution only. Forms of slots no testcase calls directly use generic unary/binary operands; method slots without a recorded call are reported as not executed. Exceptions of a changed call that are neither binding errors nor explicit are drift, not alarms. Many listed known findings (the property itself states that dozens of substitutes do not bind every form).",
+    design_ref="DESIGN.md §2 J2O_CallForms, §3 C19",
+    engine="tlc+replay(signature)+replay(execution)",
+)
+
 TITLES = {}
 for line in (VERIF / "properties.jsonl").read_text().splitlines():
     if line.strip():
